@@ -9,8 +9,12 @@ import json
 from harness.enc import IdMap, tag, untag
 from pyg_base import dictable
 
-FN = {'copy_a': lambda a: a, 'a_or_2': lambda a: 2 if a is None else a, 'const_x': lambda: 'x', 'copy_key': lambda key: key}
-DO = lambda v: 0 if v is None else v
+FN = {'copy_a': lambda a: a, 'a_or_2': lambda a: 2 if a is None else a, 'const_x': lambda: 'x', 'copy_key': lambda key: key,
+      'copy_c': lambda c: c, 'a_plus_b': lambda a, b: (a + b) % 100 if type(a) is int and type(b) is int else None}
+# per-column transforms: the first parameter is the cell, the others name columns of the same record (spec: DoFnApply)
+DOFN = {'none0': lambda value: 0 if value is None else value,
+        'add_a': lambda value, a: (value + a) % 100 if type(value) is int and type(a) is int else value,
+        'or_b': lambda value, b: b if value is None else value}
 SLICES = {'first': slice(0, 1), 'tail': slice(1, None), 'even': slice(None, None, 2), 'last': slice(-1, None), 'none': slice(None, 0), 'rev': slice(None, None, -1)}
 
 
@@ -47,7 +51,14 @@ def step(regs, h, ids, k):
             regs[h['rd']] = construct(h['seed'], ids, k); return 'ok'
         if op == 'Concat':
             a, b = regs[h['ra']], regs[h['rb']]
-            regs[h['rd']] = (a + b) if k % 2 else dictable.concat(a, b); return 'ok'
+            regs[h['rd']] = [dictable.concat(a, b), a + b, dictable.concat([a, b]), sum([a, b])][k % 4]; return 'ok'
+        if op == 'IAdd':                       # augmented assignment: the name r is given whatever += yields
+            regs[h['r']] += regs[h['rb']]; return 'ok'
+        if op == 'IAddRecord':
+            rec = {c: untag(v, ids) for c, v in h['rec']}
+            regs[h['r']] += (rec if k % 2 else [rec]); return 'ok'
+        if op == 'IAddNone':
+            regs[h['r']] += (None if k % 2 else 0); return 'ok'
         d = regs[h['r']]
         if op == 'SetCol':
             v = arg(h['arg'], ids)
@@ -71,7 +82,16 @@ def step(regs, h, ids, k):
         elif op == 'Derive':
             res = d(**{h['c']: FN[h['f']]})
         elif op == 'Do':
-            res = d.do(DO, *h['cs']) if (k % 2 or not h['cs']) else d.do(DO, list(h['cs']))
+            fs = [DOFN[f] for f in h['fs']]
+            fs = fs[0] if len(fs) == 1 and k % 3 else fs
+            res = d.do(fs, *h['cs']) if (k % 2 or not h['cs']) else d.do(fs, list(h['cs']))
+        elif op == 'DeriveConst':
+            res = d(**{h['c']: arg(h['arg'], ids)})
+        elif op == 'DerivePair':
+            kw = [(h['c'], FN[h['f']]), (h['c2'], FN[h['g']])]
+            res = d(**dict(kw if k % 2 else kw[::-1]))
+        elif op == 'Minus':
+            res = d - h['cs'][0] if (len(h['cs']) == 1 and k % 2) else d - list(h['cs'])
         elif op == 'Rename':
             res = d.relabel(**{h['c']: h['c2']}) if k % 2 else d.rename(**{h['c']: h['c2']})
         elif op == 'Swap':
@@ -194,7 +214,10 @@ def rand_event(rng, regs):
         n = 0
     cols = list(dict.keys(d))
     rd = rng.choice(['r1', 'r2', 'r3'])
-    op = rng.choice(['SetCol', 'SetCol', 'DelCol', 'Update', 'Slice', 'Slice', 'Mask', 'Take', 'Project', 'Derive', 'Do', 'Rename', 'Swap', 'Concat', 'AddRecord', 'Copy', 'NoFilter', 'AddNone', 'ConcatOne'])
+    op = rng.choice(['SetCol', 'SetCol', 'DelCol', 'Update', 'Slice', 'Slice', 'Mask', 'Take', 'Project', 'Derive', 'Do', 'Do', 'Rename', 'Swap', 'Concat', 'AddRecord', 'Copy', 'NoFilter', 'AddNone', 'ConcatOne',
+                     'IAdd', 'IAddRecord', 'IAddRecord', 'IAddNone', 'Minus', 'DeriveConst', 'DerivePair'])
+    if op in ('IAdd', 'IAddRecord') and sum(1 for s in live if regs[s] is d) > 1:
+        op = 'Copy'          # += on a table that a second name holds too is not pinned down by the statement (see SoleName in the spec)
     def colarg():
         q = rng.random()
         if q < 0.3: return ['s', val()]
@@ -218,14 +241,37 @@ def rand_event(rng, regs):
     if op == 'Project':
         return {'op': op, 'r': r, 'rd': rd, 'cs': rng.sample(cols, rng.randint(1, len(cols))) if cols and rng.random() < 0.85 else ['a', 'e']}
     if op == 'Derive':
-        c, f = rng.choice([('c', 'copy_a'), ('a', 'a_or_2'), ('b', 'const_x'), ('e', 'const_x'), ('e', 'copy_a'), ('c', 'copy_key'), ('new', 'copy_key')])
+        c, f = rng.choice([('c', 'copy_a'), ('a', 'a_or_2'), ('b', 'const_x'), ('e', 'const_x'), ('e', 'copy_a'), ('c', 'copy_key'), ('new', 'copy_key'), ('c', 'a_plus_b'), ('a', 'a_plus_b'), ('b', 'a_plus_b')])
         if f == 'copy_key' and 'key' not in cols:
             f = 'const_x'
         if f in ('copy_a', 'a_or_2') and 'a' not in cols:
             f = 'const_x'
         return {'op': op, 'r': r, 'rd': rd, 'c': c, 'f': f}
     if op == 'Do':
-        return {'op': op, 'r': r, 'rd': rd, 'cs': rng.sample(cols, rng.randint(0, len(cols))) if cols else []}
+        fs = [rng.choice(['none0', 'add_a', 'or_b']) for _ in range(rng.choice([1, 1, 2, 2, 3, 0]))]
+        cs = [rng.choice(cols) for _ in range(rng.choice([0, 1, 2, 2, 3]))] if cols else []
+        if not cs and any(f != 'none0' for f in fs):      # "all columns" only with functions of the cell alone (their order is not modelled)
+            cs = list(cols) if cols and rng.random() < 0.8 else cs
+            fs = fs if cs else ['none0']
+        return {'op': op, 'r': r, 'rd': rd, 'fs': fs, 'cs': cs}
+    if op == 'DeriveConst':
+        return {'op': op, 'r': r, 'rd': rd, 'c': rng.choice(COLS), 'arg': colarg()}
+    if op == 'DerivePair':
+        if 'c' in cols: return {'op': 'Minus', 'r': r, 'rd': rd, 'cs': ['c']}
+        return {'op': op, 'r': r, 'rd': rd, 'c': 'c', 'f': 'copy_a' if 'a' in cols or rng.random() < 0.1 else 'const_x', 'c2': rng.choice(['b', 'e', 'd']), 'g': 'copy_c'}
+    if op == 'Minus':
+        return {'op': op, 'r': r, 'rd': rd, 'cs': rng.sample(COLS, rng.choice([1, 1, 2, 3]))}
+    if op == 'IAdd':
+        rb = rng.choice(live)
+        try:
+            big = n + len(regs[rb]) > 60
+        except Exception:
+            big = False
+        return {'op': 'IAddNone', 'r': r, 'rd': r} if big else {'op': op, 'r': r, 'rb': rb, 'rd': r}
+    if op == 'IAddRecord':
+        return {'op': op, 'r': r, 'rd': r, 'rec': [[c, val()] for c in rng.sample(COLS, rng.choice([1, 2, 3]))]}
+    if op == 'IAddNone':
+        return {'op': op, 'r': r, 'rd': r}
     if op == 'Rename':
         if not cols: return {'op': 'Copy', 'r': r, 'rd': rd}
         fresh = [x for x in ('d', 'z', 'y') if x not in cols]
@@ -265,7 +311,7 @@ def c2s(ctx, nhist):
         ids = IdMap(); regs = {}; events = []
         for k in range(ctx.rng.choice([4, 8, 12, 20])):
             e = rand_event(ctx.rng, regs)
-            e['out'] = step(regs, e, ids, ctx.rng.randint(0, 1))
+            e['out'] = step(regs, e, ids, ctx.rng.randint(0, 11))
             e['post'] = post(regs, ids)
             events.append(e)
         obs.append({'events': events})
@@ -282,7 +328,8 @@ def c2s(ctx, nhist):
 
 
 def run(ctx):
-    ctx.rule = ('every behaviour of the session state machine Dictable.tla (all call sequences of length <= 2 from the menus; simulated '
+    ctx.rule = ('every behaviour of the session state machine Dictable.tla (all call sequences of length <= 2 from the menus; every history '
+                '"table, table made from it, one of the two changed in place or grown by +=" of the directed form NextDerived; simulated '
                 'sequences of length 6 and 10) replayed on real dictables; all live tables projected through column lists, len, shape, '
                 'iteration, d[i][c], d[c][i] and compared with the state TLC printed, aliasing included. Non-trivial = at least two different operations.')
     ctx.mc('Dictable', 'Dictable_mc2.cfg' if ctx.quick else 'Dictable_mc3.cfg')
@@ -290,6 +337,12 @@ def run(ctx):
     for s in snaps:
         check(ctx, s, 'exhaustive-depth-2')
     ctx.sample({'history': snaps[len(snaps) // 2]['hist'], 'expected_state': snaps[len(snaps) // 2]['regs']})
+    # directed form: New ; any call that makes a table from it ; any in-place change / += on either of them - the ORIGINAL is observed too
+    snaps = ctx.generate('Dictable', 'Dictable_gen3d.cfg')
+    for s in snaps:
+        check(ctx, s, 'derived-then-changed')
+    pick = [s for s in snaps if s['hist'][-1]['op'].startswith('IAdd')]
+    ctx.sample({'history': pick[len(pick) // 2]['hist'], 'expected_state': pick[len(pick) // 2]['regs']})
     for cfg, num, depth, cap in ([('Dictable_sim6.cfg', 900, 7, 3000)] if ctx.quick else
                                  [('Dictable_sim6.cfg', 12000, 7, 40000), ('Dictable_sim10.cfg', 6000, 11, 20000)]):
         sims = ctx.generate('Dictable', cfg, simulate=num, depth=depth, seed=ctx.seed + 1, workers=1)
@@ -299,7 +352,9 @@ def run(ctx):
         ctx.sample({'history': sims[-1]['hist'], 'expected_out': sims[-1]['out']})
     c2s(ctx, 250 if ctx.quick else 5000)
     ctx.exhaustive = False
-    ctx.assumptions += ['column order is not part of the model (columns compared as sets)',
+    ctx.assumptions += ['column order is not part of the model (columns compared as sets); d.do without column names is therefore only used with functions of the cell alone',
+                        'e += x is taken for names that are the only name of their table: the name then holds e + x and no other table moves; whether e is a new object or grew in place is not judged',
+                        'd(c = f, c2 = g) with g reading c only where c is a new column (old-or-new c is open otherwise); per-column transforms with further parameters: the parameter names a column of the same record and sees the current record',
                         'd + None and dictable.concat(d) return their operand (named deviations AddNone / ConcatOne: aliases, not copies)',
                         'rename onto an existing column, masks of the wrong length and cell mutation through returned lists are outside the domain']
 
